@@ -35,6 +35,10 @@ CLAIMED = {
          "Lean 4 theorem (invariant by induction over operations + refinement to an abstract map) + differential correspondence", "9/C13"),
  "C20": ("cache_expiry, cached_lifetime_history, expired_never_returned, auth_never_expires, auth_not_in_cache_only, auth_until_removed proved over every operation history with the clock as a parameter (refinement abs_run to an abstract record -> kind map); partial in that the runtime clock is observed through real sleeps with measured intervals.",
          "Lean 4 theorem (refinement over histories, explicit clock) + real-time differential correspondence", "9/C20"),
+ "C09": ("opt_record_layout_partial (position, owner, TYPE, CLASS = UDP size, option triples, ARCOUNT, header low nibble of every well-formed packet with EDNS data), rcode_split / rcode_recombine for all 13 codes, opt_lift (parse side over walked entries) proved; the TTL octet order is the library's, which optTtl_is_byteswapped / optTtl_ne_rfc prove to be the byte-swap of RFC 6891's and different from it: that deviation is the recorded known finding opt-ttl-byte-order, hence partial.",
+         "Lean 4 theorem (layout against the RFC 6891 spec, deviation proved explicitly) + differential correspondence", "9/C09"),
+ "C10": ("schema_matches_rfc (the model's 38-row layout table equals the table written from the RFCs with IANA codes), rfc_encoding (serialising any in-range field tuple yields the RFC reference encoding byte for byte), rfc_parse / rfc_parse_record (parsing that encoding yields the values), rfc_ipseckey, reject rules (LOC version, unordered SVCB/NSEC keys, inner length overruns are .err, never panic) proved; the per-type Rust code is tied to the table by the correspondence.",
+         "Lean 4 theorem (equality with a declarative RFC schema + reference encoder) + differential correspondence", "9/C10"),
 }
 PENDING = {f"C{n:02d}": "check not built yet (implementation of DESIGN.md in progress); will be claimed at level proof" for n in range(1, 21)}
 try:
